@@ -123,6 +123,19 @@ def fam_shrink(rng, i):
               drop=[k + 1] if i % 3 == 0 else [])
 
 
+def fam_shrinkloss(rng, i):
+    """A segment is lost and, before it is retransmitted, the peer's window shrinks below the segment's size and stays small for
+    longer than the retransmission timeout: the retransmission has to re-cut a segment that was already sent once."""
+    mss = rng.choice([536, 1000, 200])
+    w = 6 * mss
+    k = rng.randrange(2, 5)
+    small = [mss // 2, mss - 1, mss // 3, 1][i % 4]
+    rules = [dict(on='data', n=k + 1, do='wnd', wnd=small, count=1),                      # right edge moves left while segment k is missing
+             dict(on='data', n=k + 1, do='wnd', wnd=w, count=2, gap_ms=50, after_ms=rng.choice([1600, 2600]))]
+    return mk(rng, 'shrinkloss%d-mss%d-small%d-lost%d' % (i, mss, small, k), 4 * w, mss=mss, wnd=w, synwnd=w, rules=rules, ts=rng.random() < 0.3,
+              drop=[k], deadline_ms=25000, quiet_ooo=True)     # no duplicate ACKs: the repair comes from the timeout path (go-back-N)
+
+
 def fam_dupk(rng, i):
     k = [3, 1, 2, 4, 7, 3, 3, 5][i % 8]
     step = [0, 0, 0, 0, 0, 120, -120, 0][i % 8] if i % 16 < 8 else rng.choice([0, 0, 64, -64])
@@ -302,7 +315,7 @@ FAMILIES = {
     'mss': (fam_mss, 12, 2), 'ws': (fam_ws, 9, 1), 'smallwnd': (fam_smallwnd, 8, 1), 'zerownd': (fam_zerownd, 8, 1), 'shrink': (fam_shrink, 6, 1),
     'dupk': (fam_dupk, 1, 16), 'latedup': (fam_latedup, 0, 4), 'partial': (fam_partial, 2, 8), 'multiloss': (fam_multiloss, 1, 6),
     'lossinrec': (fam_lossinrec, 0, 4), 'silent': (fam_silent, 0, 5), 'stretch': (fam_ackevery, 1, 8), 'bogus': (fam_bogus, 4, 5),
-    'bidi': (fam_bidi, 6, 3), 'dataacks': (fam_dataacks, 0, 3), 'random': (fam_random, 10, 10),
+    'shrinkloss': (fam_shrinkloss, 4, 4), 'bidi': (fam_bidi, 6, 3), 'dataacks': (fam_dataacks, 0, 3), 'random': (fam_random, 10, 10),
 }
 
 
@@ -584,6 +597,16 @@ def selftest(ctx, props, scs, segs, per, reported):
                     seen.add(e['seq'])
             if done:
                 bad.append(('rawpeer-early-timeout', b))
+    if 'C01' in props:
+        # one byte of a data segment the stack put on the wire is not the byte the application wrote at that offset
+        i = next((i for i in clean if any(e['ev'] == 'emit' and e.get('e') == 'a' and e.get('len', 0) > 0 and e.get('pay') for e in segs[i])), None)
+        if i is not None:
+            b = copy.deepcopy(segs[i])
+            for e in b:
+                if e['ev'] == 'emit' and e.get('e') == 'a' and e.get('len', 0) > 0 and e.get('pay'):
+                    e['pay'][0] = (e['pay'][0] + 1) % 256
+                    break
+            bad.append(('rawpeer-wire-byte', b))
     names = []
     for nm, b in bad:
         a, rj = vlib.validate_segments(ctx, 'TraceTcp', tc, SPEC, [b], name='selftest-' + nm, count=False)
